@@ -74,7 +74,7 @@ CLAIMED = {
         'Restriction precedence, permitted/band/Raman-only-if-allowed, capable => chosen capable and quietest (first '
         'minimum), exact fall-back and error behaviour proved for every library, NF assignment and target.',
         'NF per candidate is an input (C04 owns the NF model). Multiband permitted set, preselection and per-band choice are '
-        'modelled; the clause "pick belongs to a permitted multiband model" is refuted (open finding F-multiband-leak). Multiband '
+        'modelled; each band pick belongs to a permitted multiband model (proved); the designed multiband type_variety need not be permitted (open finding F-multiband-type, refutation witness). Multiband '
         'nodes with an imposed type_variety are not generated.',
         'DESIGN.md §7 C10'),
     'C11': (
@@ -175,6 +175,48 @@ CLAIMED = {
         'Spec tolerates extra keys (exact shape covered by correspondence). watt2dbm enters the CSV model as a harness input. '
         'Means within 1e-9 of a rounding tie are not judged (counted).',
         'DESIGN.md §7 C19'),
+    'C01': (
+        'Coq proof over a Q model of the SpectralInformation bookkeeping (invariant by induction over every op history, '
+        'element program and path; exact accounting; GSNR identity incl. Transceiver.update_snr) + exact-Q replay of real '
+        'SpectralInformation histories and of the traced primitive updates of every element of designed networks',
+        'Inv (0<p, shares>=0, s+a+n=1) is preserved by att/gain/add_ase/add_nli exactly as info.py computes them, hence by '
+        'every history, element and path on whole spectra incl. demux/mux (permutation of the same records); add_ase / '
+        'add_nli / att accounting is exact; 1/GSNR = 1/OSNR + 1/SNR_NLI for propagated and reported figures (signal '
+        'bandwidth and 0.1 nm). All closed under the global context.',
+        'Scope nli <= pch (launch <= +10 dBm) is a hypothesis of add_nli_inv and is checked on every executed add_nli. NLI and '
+        'ASE values enter as logged (C03/C04 own them).',
+        'DESIGN.md §7 C01'),
+    'C02': (
+        'Coq proof (att/gain leave the shares Leibniz-equal; add_ase/add_nli lower only their side; per element kind; '
+        'monotonicity between any i<=j along any history and path via a transitive domination order) + tracing tie: the '
+        'primitive updates each real element applies must be an instance of its kind program (checked in Coq) and replay exactly',
+        'Roadm/Fused/Transceiver: same shares; Edfa/Multiband: only ASE; Fiber: only NLI; Raman: non-improving; '
+        'cross-multiplied ratios so zero noise needs no special case; whole spectra incl. Multiband demux/mux. Oracle on '
+        'every channel of every element and primitive update (bit-identical across passive elements, monotone otherwise).',
+        'An element that changes a ratio behind the primitives is caught by the before/after snapshot replay, not by proof. '
+        'NLI/ASE magnitudes are not judged here.',
+        'DESIGN.md §7 C02'),
+    'C08': (
+        'Coq proof over a chain model of auto-design (split, amplifier insertion, junction rule, erase, totals, connectors, '
+        'padding; validators with reflection theorems) + every line of random networks compared with design_line and judged '
+        'by the proved validators + graph-level oracle (chains, reachability, unique names)',
+        'split_length / split_fibre (equal spans, totals preserved, <= max), no fibre-fibre / ROADM-fibre junction left and '
+        'no amplifier next to Fused/Transceiver, erase-amps gives back the split chain, names unique, connectors set, every '
+        'non-Raman amp-to-amp span >= padding with att_in only on its first fibre.',
+        'Multiband kind logic is modelled but not exercised by correspondence; amplifier values are C09; selected varieties '
+        'are inputs. Five open findings (lumped losses on split, Raman span without power, min_length > max_length, padding '
+        'at Fused, Raman split) carry refutation witnesses.',
+        'DESIGN.md §7 C08'),
+    'C17': (
+        'Coq proof (amplifier-side export/reload/redesign fixpoint in power mode for any OMS and any number of rounds; '
+        'connector/padding/export idempotence; span-loss cache; SimParams save/restore; params round trip) + '
+        'implementation-vs-itself oracle over 1-3 rounds with counterfactual attribution + amplifier-walk correspondence',
+        'redesign_fixpoint_partial, n_rounds, design_deterministic, eol_growth (finding F7 as a theorem), '
+        'simparams_restored, params_roundtrip_raman/nli; network_to_json(design(x)) vs design(load(export(design(x)))) and '
+        'propagation, design twice, vars() of the shared SimParams before/after.',
+        'Whole-line composition and gain mode are tested, not proved. Open findings: EOL re-added, single design band '
+        'dropped, lumped losses not exported, Raman estimate ignoring out_voa, Raman span without power.',
+        'DESIGN.md §7 C17'),
 }
 
 NOT_YET = {}
